@@ -1,3 +1,4 @@
+import FlowRecordProofs.Lemmas.PackIgnore
 import FlowRecordProofs.Lemmas.Msgpack
 import FlowRecordProofs.Lemmas.Envelope
 import FlowRecordProofs.Lemmas.Framing
@@ -170,3 +171,17 @@ example : ∀ st' frames, writeHist WState.init [(StreamExample.o1, some 1), (St
   fun st' frames hw hsz =>
     C01_stream_roundtrip_failed_writes StreamExample.h _ _ st' frames hw StreamExample.histF hsz
 
+
+
+/-- THE COMPARISON-IGNORE CONFIGURATION CONCERNS == AND hash() ONLY: whatever configuration is in force
+    (FLOW_RECORD_IGNORE, `set_ignored_fields_for_comparison`, a `with ignore_fields_for_comparison(...)` block around a
+    de-duplicating producer), every record written to a stream is written with ALL its slots: the packer asks `Record._pack` to leave out nothing.
+    Premises: the regenerated source facts (`Gen.recordPackReadsGlobalIgnore`, `recordPackExcludedDefault`,
+    `packerPassesExcluded`). -/
+theorem C01_ignore_configuration_never_reaches_the_writer (globalIg : List (List Nat))
+    (names : List (List Nat)) {α : Type} (vals : List α) (h : names.length = vals.length) :
+    FlowRecord.Equality.packerExcluded globalIg = [] ∧
+    FlowRecord.Equality.keep (FlowRecord.Equality.packerExcluded globalIg) names vals = vals := by
+  refine ⟨FlowRecord.Equality.packerExcluded_nil globalIg, ?_⟩
+  rw [FlowRecord.Equality.packerExcluded_nil globalIg]
+  exact FlowRecord.Equality.keep_nil names vals h
